@@ -484,5 +484,5 @@ _describe_base = describe
 
 def describe(tier):     # noqa: F811 - the base description plus what later rounds added to the space
     d = _describe_base(tier)
-    d["rule"] = d["rule"] + " " + 'Further azimuthal roots: sets in which a rejection with a bounded range is refused half-way through the azimuths (explicit rows: every window of azimuth 1 peaks inside the range, their mean curve does not).'
+    d["rule"] = d["rule"] + " " + 'Further azimuthal roots: sets in which a rejection with a bounded range is refused half-way through the azimuths (explicit rows: every window of azimuth 1 peaks inside the range, their mean curve does not). In every written state the file of write(obj, f) with the distributions omitted must equal byte for byte the file of the documented defaults; the distributions remembered from the last rejection are part of the canonical state.'
     return d
